@@ -32,6 +32,12 @@ U_ACCOUNT = "M\u00fcller-\u00d1and\u00fa"
 U_TEXT = "caf\u00e9 \u20ac5 \u6f22\u5b57 \U0001f600"
 U_TICKER = "M\u00dcL.\u20ac"
 ENDS = ["IO", "AO"]
+# heartbeat period of the session: the initiator's heartbeat_period, HeartBtInt of its Logon and the heartbeat_period
+# the real acceptor is configured with (the helper builds its simulated acceptor itself).  Every script runs with
+# HB_DEFAULT; scripts up to HB_LEN_* steps also run with every other period of HB_PERIODS_*.
+HB_DEFAULT = 30
+HB_PERIODS_QUICK, HB_PERIODS_THOROUGH = [5, 60], [2, 5, 29, 31, 60, 3600]
+HB_LEN_QUICK, HB_LEN_THOROUGH = 3, 4
 # initiator: send_test_req() and, without waiting for the answer, disconnect(logout_message=...); only as the
 # end of scripts of length <= 3
 END_NOWAIT = "ID"
@@ -71,9 +77,9 @@ def ini_class():
 
 # -- messages (identical content in both worlds; built fresh for every send) ---
 
-def m_logon():
+def m_logon(hb=HB_DEFAULT):
     from asyncfix import FIXMessage, FMsg
-    return FIXMessage(FMsg.LOGON, {98: "0", 108: "30"})
+    return FIXMessage(FMsg.LOGON, {98: "0", 108: str(hb)})
 
 
 def m_ini_app(i):
@@ -150,7 +156,7 @@ class _Base:
 
 
 class TesterWorld(_Base):
-    def __init__(self, comp, start):
+    def __init__(self, comp, start, hb=HB_DEFAULT):
         from asyncfix import FIXTester, Journaler
         from asyncfix.connection import ConnectionState
         from asyncfix.protocol import FIXProtocol44
@@ -160,7 +166,8 @@ class TesterWorld(_Base):
         self.loop.enter()
         ini, acc = comp
         self.j = Journaler()
-        self.c = ini_class()(FIXProtocol44(), ini, acc, self.j, "localhost", "64444", heartbeat_period=30)
+        self.hb = hb
+        self.c = ini_class()(FIXProtocol44(), ini, acc, self.j, "localhost", "64444", heartbeat_period=hb)
         self.j.set_seq_num(session_of(self.c), next_num_out=start[0], next_num_in=start[1])
         set_state(self.c, ConnectionState.NETWORK_CONN_ESTABLISHED)
         self.ft = FIXTester(schema=None, connection=self.c)
@@ -172,7 +179,7 @@ class TesterWorld(_Base):
     def step(self, code, i):
         ft, c = self.ft, self.c
         if code == "IL":
-            r = self.call(c.send_msg(m_logon()))
+            r = self.call(c.send_msg(m_logon(self.hb)))
         elif code == "IA":
             r = self.call(c.send_msg(m_ini_app(i)))
         elif code == "IT":
@@ -232,7 +239,7 @@ class LinkWriter(FakeWriter):
 
 
 class RealWorld(_Base):
-    def __init__(self, comp, start):
+    def __init__(self, comp, start, hb=HB_DEFAULT):
         from asyncfix import Journaler
         from asyncfix.connection import ConnectionState
         from asyncfix.protocol import FIXProtocol44
@@ -247,10 +254,11 @@ class RealWorld(_Base):
         self.net = install_net()
         ini, acc = comp
         self.js = Journaler()
-        self.s = Server(FIXProtocol44(), acc, ini, self.js, "h", 1, heartbeat_period=30)
+        self.s = Server(FIXProtocol44(), acc, ini, self.js, "h", 1, heartbeat_period=hb)
         self.js.set_seq_num(session_of(self.s), next_num_out=start[1], next_num_in=start[0])
         self.j = Journaler()
-        self.c = ini_class()(FIXProtocol44(), ini, acc, self.j, "localhost", "64444", heartbeat_period=30)
+        self.hb = hb
+        self.c = ini_class()(FIXProtocol44(), ini, acc, self.j, "localhost", "64444", heartbeat_period=hb)
         self.j.set_seq_num(session_of(self.c), next_num_out=start[0], next_num_in=start[1])
         self.c_r, self.s_r = FakeReader(), FakeReader()
         self.c_w = LinkWriter("c", self.s_r, self.c_r)
@@ -280,7 +288,7 @@ class RealWorld(_Base):
     def step(self, code, i):
         c, s = self.c, self.s
         if code == "IL":
-            return self.call(c.send_msg(m_logon()))
+            return self.call(c.send_msg(m_logon(self.hb)))
         if code == "IA":
             return self.call(c.send_msg(m_ini_app(i)))
         if code == "IT":
@@ -317,9 +325,9 @@ ORDER = ["call_result", "written_frames", "received_frames", "state_sequence", "
          "deliveries", "counters", "stored_counters", "journal", "loop_errors"]
 
 
-def run_script(comp, start, script):
+def run_script(comp, start, script, hb=HB_DEFAULT):
     """Run one script in both worlds. Returns (first difference or None, steps executed)."""
-    tw = TesterWorld(comp, start)
+    tw = TesterWorld(comp, start, hb)
     try:
         t_obs = []
         for i, code in enumerate(script):
@@ -329,7 +337,7 @@ def run_script(comp, start, script):
             t_obs.append(o)
     finally:
         tw.close()
-    rw = RealWorld(comp, start)
+    rw = RealWorld(comp, start, hb)
     try:
         r_obs = []
         for i, code in enumerate(script):
@@ -374,21 +382,30 @@ _COMP = None
 
 
 def _work(item):
-    start, script = item
-    diff, n = run_script(_COMP, start, script)
+    start, script, hb = item
+    diff, n = run_script(_COMP, start, script, hb)
     if diff is None:
         return None
-    return violation(_COMP, start, script, diff)
+    if hb != HB_DEFAULT:
+        # differential: only what the same script does not already show with the default period is attributed to the period
+        d0, _n = run_script(_COMP, start, script[: diff["step"] + 1], HB_DEFAULT)
+        if d0 is not None and (d0["step"], d0["what"]) == (diff["step"], diff["what"]):
+            return None
+    return violation(_COMP, start, script, diff, hb)
 
 
-def violation(comp, start, script, diff):
+def violation(comp, start, script, diff, hb=HB_DEFAULT):
     k = diff["step"]
+    sig = f"fidelity_{diff['what']}|at_{STEP_NAME[diff['code']]}"
+    if hb != HB_DEFAULT:
+        sig += f"|only_with_session_heartbeat_period_other_than_{HB_DEFAULT}"
     return {
-        "signature": f"fidelity_{diff['what']}|at_{STEP_NAME[diff['code']]}",
+        "signature": sig,
         "clause": CLAUSE,
-        "detail": {"script": script[: k + 1], "start_counters": list(start), "first_difference_at_step": k,
+        "detail": {"script": script[: k + 1], "start_counters": list(start), "session_heartbeat_period": hb,
+                   "first_difference_at_step": k,
                    "observable": diff["what"], "against_helper": _tail(diff["tester"]), "against_real_acceptor": _tail(diff["real"])},
-        "replay": {"part": "b", "comp": list(comp), "start": list(start), "script": script[: k + 1]},
+        "replay": {"part": "b", "comp": list(comp), "start": list(start), "script": script[: k + 1], "hb": hb},
     }
 
 
@@ -399,10 +416,14 @@ def _tail(x):
 def run_fidelity(ctx, maxlen):
     global _COMP
     _COMP = COMP_POOL[ctx.seed % len(COMP_POOL)]
-    items = [(st, sc) for sc in scripts(maxlen) for st in STARTS]
+    items = [(st, sc, HB_DEFAULT) for sc in scripts(maxlen) for st in STARTS]
+    hb_len = HB_LEN_QUICK if ctx.quick else HB_LEN_THOROUGH
+    periods = HB_PERIODS_QUICK if ctx.quick else HB_PERIODS_THOROUGH
+    hb_scripts = [["IL", END_NOWAIT]] + [["IL", m, END_NOWAIT] for m in MIDS] + list(_scripts(hb_len, MIDS))
+    items += [(st, sc, hb) for hb in periods for sc in hb_scripts for st in STARTS]
     res = ctx.pmap(_work, items, chunk=8)
     steps = 0
-    for (st, sc), r in zip(items, res):
+    for (st, sc, _hb), r in zip(items, res):
         steps += 2 * len(sc)
         if r:
             ctx.merge_violations([r])
@@ -410,11 +431,13 @@ def run_fidelity(ctx, maxlen):
         else:
             ctx.outcomes.add(("fidelity", "same"))
     return {"scripts": len(items), "steps": steps, "comparisons": steps // 2 * len(ORDER),
-            "samples": [{"part": "b", "script": items[i][1], "start": list(items[i][0])}
+            "hb_periods": [HB_DEFAULT] + list(periods), "hb_script_len": hb_len,
+            "samples": [{"part": "b", "script": items[i][1], "start": list(items[i][0]), "hb": items[i][2]}
                         for i in (0, len(items) // 2, len(items) - 1)]}
 
 
 def replay_fidelity(rep):
     comp, start, script = tuple(rep["comp"]), tuple(rep["start"]), list(rep["script"])
-    diff, _n = run_script(comp, start, script)
-    return [violation(comp, start, script, diff)] if diff else []
+    hb = rep.get("hb", HB_DEFAULT)
+    diff, _n = run_script(comp, start, script, hb)
+    return [violation(comp, start, script, diff, hb)] if diff else []
